@@ -413,8 +413,9 @@ def run(ctx):
     check_slab_test(ctx, prog)
     check_point_in_poly(ctx, prog)
     # D5 reveal surfaces of set-back windows (exact symbolic geometry, ctecheck/rules/_reveal.py)
-    from ._reveal import check_reveals
+    from ._reveal import check_reveals, check_reveal_frame
     check_reveals(ctx, "c13.reveal", "c13.reveal")
+    check_reveal_frame(ctx, "c13.reveal", "c13.reveal")
     # D3: who builds boxes.  The accumulator shape is decided for WallGeom::aabb and AABB::join (below); AABB::new and Default only store
     # their arguments.  Any other function that constructs an AABB is a box constructor this rule has not read: cannot decide (exit 2).
     from .. import support as S
